@@ -249,6 +249,9 @@ structure Config where
   modifier : List Msg → List Msg
   /-- `AgentConfig.StreamToolCallChecker` (`none` = nil = default) -/
   checker : Option CheckerSpec
+  /-- `AgentConfig.ToolsConfig.UnknownToolsHandler` (`none` = nil): tool name ↦ arguments ↦ result,
+      asked for calls whose name is not a registered tool -/
+  unknown : Option (String → String → Except Nat String) := none
 
 inductive Mode where
   | generate | stream
@@ -268,11 +271,35 @@ def returnDirectlyId (rd : List String) (m : Msg) : String :=
   | some c => c.id
   | none => ""
 
-/-- tool_node.go `genToolCallTasks`: every call must name a registered tool -/
+/-- tool_node.go `genToolCallTasks`, one call: the registered tool of that name; for a name that
+    is not registered, the unknown-tools handler applied to *that name* (`newUnknownToolTask(name,
+    …)`), if one is configured -/
+def Config.toolFor (cfg : Config) (name : String) : Option (String → Except Nat String) :=
+  match cfg.tools name with
+  | some f => some f
+  | none => cfg.unknown.map (fun h => h name)
+
+/-- tool_node.go `genToolCallTasks`: every call must name a registered tool, or be taken by the
+    unknown-tools handler; otherwise the node fails before any tool runs -/
 def resolveCalls (cfg : Config) : List ToolCall → Option (List (ToolCall × (String → Except Nat String)))
   | [] => some []
   | c :: cs =>
-    match cfg.tools c.name, resolveCalls cfg cs with
+    match cfg.toolFor c.name, resolveCalls cfg cs with
+    | some f, some rest => some ((c, f) :: rest)
+    | _, _ => none
+
+/-- What `genToolCallTasks` would compute if the closure handed to the unknown-tools handler read
+    a variable shared by all iterations of the loop (Go < 1.22 `for _, toolCall := range …`): every
+    unknown call is answered under the name of the LAST call of the message. Not the code; used
+    only to show that the fact `unknownToolTaskGetsOwnName` matters. -/
+def resolveCallsSharedVar (cfg : Config) (all : List ToolCall) :
+    List ToolCall → Option (List (ToolCall × (String → Except Nat String)))
+  | [] => some []
+  | c :: cs =>
+    let f := match cfg.tools c.name with
+      | some f => some f
+      | none => cfg.unknown.map (fun h => h ((all.getLast?.map (·.name)).getD c.name))
+    match f, resolveCallsSharedVar cfg all cs with
     | some f, some rest => some ((c, f) :: rest)
     | _, _ => none
 
